@@ -39,7 +39,7 @@ NONE = 99
 OPS = ["reshape", "transpose", "moveaxis", "swapaxes", "squeeze", "expand_dims", "flip", "rot90", "roll", "take", "shuffle",
        "repeat", "tile", "broadcast_to", "tri", "diff", "pad", "concatenate", "stack", "block"]
 INVS = ["CellCount", "OnlyInputCells", "Bijective", "JoinKeepsAll", "PadKeepsCore", "ChunkingsValid", "RelStructure",
-        "RelNotIdentity"]
+        "RelNotIdentity", "RankOK"]
 
 
 # --------------------------------------------------------------------------- inputs
@@ -49,6 +49,8 @@ def input_shapes(case):
         return [list(s) for s in case["shapes"]]
     if op == "block2":
         return [list(s) for row in case["rows"] for s in row]
+    if op == "block3":
+        return [list(s) for plane in case["planes"] for row in plane for s in row]
     return [list(case["shape"])]
 
 
@@ -92,6 +94,14 @@ def apply(xp, case, arrs, v):
         return xp.squeeze(a, axis=ax) if alt % 2 == 0 else a.squeeze(axis=ax)
     if op == "expand_dims":
         return xp.expand_dims(a, case["ax"])
+    if op == "expand_dims_t":
+        axs = tuple(case["axs"])
+        return xp.expand_dims(a, axs if alt % 2 == 0 else list(axs))
+    if op == "squeeze_t":
+        axs = tuple(case["axs"])
+        return xp.squeeze(a, axis=axs) if alt % 2 == 0 else a.squeeze(axis=axs)
+    if op == "atleast":
+        return getattr(xp, "atleast_%dd" % case["k"])(a)
     if op == "flip":
         return xp.flip(a, _ax(case["ax"]))
     if op == "rot90":
@@ -135,6 +145,9 @@ def apply(xp, case, arrs, v):
     if op == "block2":
         it = iter(arrs)
         return xp.block([[next(it) for _ in row] for row in case["rows"]])
+    if op == "block3":
+        it = iter(arrs)
+        return xp.block([[[next(it) for _ in row] for row in plane] for plane in case["planes"]])
     raise MachineryError("unknown op %r" % op)
 
 
@@ -200,7 +213,8 @@ def classify(case, clause, run, obs=None):
     the reflect/symmetric/wrap family wider than the axis, a zero-width chunk on a non-empty axis, the corner cells
     of a mean pad; anything else is named by the failing clause."""
     op = case["op"]
-    fam = {"tril": "tri", "triu": "tri", "block1": "block", "block2": "block", "T": "transpose"}.get(op, op)
+    fam = {"tril": "tri", "triu": "tri", "block1": "block", "block2": "block", "block3": "block", "T": "transpose",
+           "expand_dims_t": "expand_dims", "squeeze_t": "squeeze"}.get(op, op)
     kind = "raises" if clause == "UnexpectedRaise" else "wrong-result"
     shapes = input_shapes(case)
     root = None
@@ -310,7 +324,8 @@ def _factorizations(n, maxlen=3):
 
 
 def random_case(rng):
-    op = rng.choice(["reshape", "reshape", "transpose", "moveaxis", "swapaxes", "squeeze", "expand_dims", "flip", "rot90", "roll",
+    op = rng.choice(["reshape", "reshape", "transpose", "moveaxis", "swapaxes", "squeeze", "expand_dims", "expand_dims_t", "atleast",
+                     "block3", "flip", "rot90", "roll",
                      "take", "shuffle", "repeat", "tile", "broadcast_to", "tril", "triu", "diff", "pad", "pad", "concatenate",
                      "stack", "block1"])
     nd = rng.choice([1, 2, 2, 3])
@@ -340,6 +355,14 @@ def random_case(rng):
         c["ax"] = rng.choice([NONE, saxis])
     elif op == "expand_dims":
         c["ax"] = rng.randrange(-nd - 1, nd + 1)
+    elif op == "expand_dims_t":
+        k = rng.randrange(0, 4)
+        c["axs"] = [p if rng.random() < 0.6 else p - (nd + k) for p in sorted(rng.sample(range(nd + k), k))]
+        rng.shuffle(c["axs"])
+    elif op == "atleast":
+        c["k"] = rng.randrange(1, 4)
+    elif op == "block3":
+        c["planes"] = [[[list(shape) for _ in range(rng.randint(1, 2))]] for _ in range(rng.randint(1, 2))]
     elif op == "flip":
         c["ax"] = rng.choice([NONE, saxis])
     elif op == "rot90":
@@ -362,7 +385,8 @@ def random_case(rng):
     elif op == "repeat":
         c["r"], c["ax"] = rng.randrange(0, 4), saxis
     elif op == "tile":
-        c["reps"] = [rng.randrange(0, 3) for _ in range(rng.randrange(1, 4))]
+        # every length 0 .. ndim + 2, ones (a "nothing is repeated" argument that still adds axes) favoured
+        c["reps"] = [rng.choice([0, 1, 1, 1, 2, 3]) for _ in range(rng.randrange(0, nd + 3))]
         if int(np.prod(shape)) * int(np.prod([max(r, 1) for r in c["reps"]])) > 150:
             c["reps"] = [2]
     elif op == "broadcast_to":
@@ -566,7 +590,7 @@ def selftest(ctx):
     routines = importlib.import_module("dask.array.routines")
     creation = importlib.import_module("dask.array.creation")
     ok = True
-    cases, chunkings = enumerate_cases(ctx, ["roll", "rot90", "tri", "pad", "flip", "shuffle", "take"], "{<<3>>, <<2, 3>>}", 2,
+    cases, chunkings = enumerate_cases(ctx, ["roll", "rot90", "tri", "pad", "flip", "shuffle", "take", "tile"], "{<<3>>, <<2, 3>>}", 2,
                                        "selftest", wide="{<<4>>, <<2, 4>>}")
     cases = [c for c in cases if not (c["c"]["op"] == "pad" and
                                       (c["c"]["mode"] not in ("reflect", "edge") or max(max(p) for p in c["c"]["pw"]) > 1))]
@@ -582,6 +606,9 @@ def selftest(ctx):
         ("M3 routines.rot90 (k == 3): flip along axes[1] -> axes[0]  [wrong operand]", routines, "rot90",
          "return flip(transpose(m, axes_list), axes[1])", "return flip(transpose(m, axes_list), axes[0])"),
         ("M4 routines.triu: mask k - 1 -> k  [boundary off by one]", routines, "triu", "k=k - 1,", "k=k,"),
+        ("M6 creation.tile: early return 'nothing is repeated' when every rep is 1, also when reps is longer than the rank  "
+         "[added shortcut]", creation, "tile", "    c = asarray(A)\n",
+         "    c = asarray(A)\n    if all(nrep == 1 for nrep in tup):\n        return c\n"),
         ("M5 _shuffle._shuffle: 'already shuffled' shortcut compares only length, first and last of each group  [weakened test]",
          importlib.import_module("dask.array._shuffle"), "_shuffle", "if idx != list(range(ctr, ctr + c)):",
          "if len(idx) != c or (c and (idx[0] != ctr or idx[-1] != ctr + c - 1)):"),
